@@ -99,7 +99,9 @@ def _matches(entry, prop, cid, clause, config, inputs=None):
         if not inputs:
             return False
         try:
-            if not getattr(known_predicates, m['input_predicate'])(inputs, config):
+            pred = getattr(known_predicates, m['input_predicate'])
+            ok = pred(inputs, config, clause) if pred.__code__.co_argcount >= 3 else pred(inputs, config)
+            if not ok:
                 return False
         except Exception:
             return False
